@@ -186,7 +186,7 @@ def run(ctx):
     # name of the file that was loaded.
     rff = ctx.fn(tables.FS + "._resume_from_file")
     fallback_ = [c_ for c_ in walk_no_nested(rff.node) if isinstance(c_, ast.Call) and isinstance(c_.func, ast.Attribute) and c_.func.attr == "resume"]
-    ctx.ob("R-FS", "C11.5", rff, "the reader passes the candidate name it is loading (primary, then `.old`) to <Sampler>.resume", len(fallback_) == 2 and any(isinstance(s_, ast.AugAssign) and src(s_.value) in ("'.old'", '".old"') for s_ in walk_no_nested(rff.node)), f"{[src(c_)[:60] for c_ in fallback_]}")
+    ctx.ob("R-FS", "C11.5", rff, "the reader passes the candidate name it is loading (primary, then `.old`) to <Sampler>.resume", len(fallback_) == 2 and (any(isinstance(s_, ast.AugAssign) and src(s_.value) in ("'.old'", '".old"') for s_ in walk_no_nested(rff.node)) or sum(1 for c_ in fallback_ if c_.args and any(isinstance(k_, ast.Constant) and k_.value == ".old" for k_ in ast.walk(c_.args[0]))) == 1), f"{[src(c_)[:60] for c_ in fallback_]}")
     n_rf = 0
     for f_ in prog.all_functions:
         for s_ in walk_no_nested(f_.node):
